@@ -45,6 +45,10 @@ void r_permutation(void) { init(); U(RG_PERM123) RG_PERM123_T0 m3; RG_PERM12_T0 
   _Bool perfect = (in_ans[1][0] && in_ans[2][1] && in_ans[3][2]) || (in_ans[1][0] && in_ans[3][1] && in_ans[2][2]) || (in_ans[2][0] && in_ans[1][1] && in_ans[3][2])
                || (in_ans[2][0] && in_ans[3][1] && in_ans[1][2]) || (in_ans[3][0] && in_ans[1][1] && in_ans[2][2]) || (in_ans[3][0] && in_ans[2][1] && in_ans[1][2]);
   __CPROVER_assert(!r3 || perfect, "[C11] POST range_is_permutation_accepts_only_when_a_one_to_one_matching_exists");
+  /* the first-fit assignment taken in range order, with the removal the anchored mechanism names (swap with the last, then drop it) */
+  { int order[3] = {1, 2, 3}; int n = 3, j = 0;
+    for (; j < 3; j++) { int f = -1; for (int i = 0; i < 3; i++) if (i < n && f < 0 && in_ans[order[i]][j]) f = i; if (f < 0) break; order[f] = order[n - 1]; n--; }
+    __CPROVER_assert(r3 == (j == 3 && n == 0), "[C11] POST range_is_permutation_overlapping_matchers_answer_is_the_first_fit_assignment_in_range_order"); }
   _Bool r2 = RG_PERM12(&m2, &u);
   __CPROVER_assert(!r2, "[C11] POST range_is_permutation_rejects_a_range_longer_than_the_element_list");
   __CPROVER_assert(0, "REACH! r_permutation"); }
